@@ -512,8 +512,10 @@ class Program:
         self.impls = facts["impls"]
         self.structs = facts.get("structs", {})
         self.trait_impls = defaultdict(list)  # trait method path -> [impl method path]
+        self.impl_assoc = {}
         for im in self.impls:
             self.trait_impls[im["trait_method"]].append(im["impl_method"])
+            self.impl_assoc[im["impl_method"]] = im.get("assoc", {})
         self._cg = None
         self._reach = {}
         self.by_stripped = defaultdict(list)
@@ -537,15 +539,35 @@ class Program:
         if t.get("local") and t.get("resolved") in self.bodies and not t.get("dyn"):
             out.append(t["resolved"])
         elif t.get("dyn") or (t.get("resolved") is None and t.get("callee") in self.trait_impls):
-            for im in self.trait_impls.get(t.get("callee"), []):
-                if im in self.bodies:
-                    out.append(im)
+            for im in self.dyn_targets(t):
+                out.append(im)
         elif t.get("local") and t.get("resolved") not in self.bodies:
             # trait default method or something not in bodies
             pass
         for c in cs.closure_args():
             if c in self.bodies:
                 out.append(c)
+        return out
+
+    def dyn_targets(self, t):
+        """Impl methods a dyn / unresolved trait call can dispatch to: all local impls of the trait method
+        whose associated types agree with the `Name = Type` bindings of the dyn type."""
+        want = {}
+        st = t.get("self_ty") or ""
+        for m in re.finditer(r"(\w+) = ([^,>]+(?:<[^>]*>)?)", st):
+            want[m.group(1)] = m.group(2).strip()
+        out = []
+        for im in self.trait_impls.get(t.get("callee"), []):
+            if im not in self.bodies:
+                continue
+            assoc = self.impl_assoc.get(im, {})
+            ok = True
+            for k, v in want.items():
+                if k in assoc and assoc[k] != v:
+                    ok = False
+                    break
+            if ok:
+                out.append(im)
         return out
 
     def callgraph(self):
